@@ -196,3 +196,29 @@ def witness_F32():
     ph = 0.1 - 0.05 * np.arange(50)
     out = _smooth_phase("savgol", 4, 2, 3, np.linspace(12, -3, 50), ph.copy())
     return bool(abs(np.max(np.abs(out - ph)) - 0.025) < 1e-6)
+
+
+# ---- F33 (C12): the limits of a constrained parameter clip the value of its constraint expression
+def constraint_clipped_by_limits(entry):
+    i = entry.get("input")
+    if not (isinstance(i, dict) and entry.get("what") == "constraint-violated"):
+        return False
+    cs = i.get("constraint_values", {})
+    lo, hi, lhs, rhs = cs.get("lo"), cs.get("hi"), cs.get("lhs"), cs.get("rhs")
+    if None in (lo, hi, lhs, rhs):
+        return False
+    at_lo = abs(lhs - lo) <= 1e-9 * max(abs(lo), 1e-300) and rhs < lo
+    at_hi = abs(lhs - hi) <= 1e-9 * max(abs(hi), 1e-300) and rhs > hi
+    return at_lo or at_hi
+
+
+def witness_F33():
+    import numpy as np
+    from pyimpspec import DataSet, fit_circuit, parse_cdc
+    true = parse_cdc("R{R=10}(R{R=100}C{C=1e-5})")
+    f = np.logspace(5, -1, 40)
+    start = parse_cdc("R{R=10}(R{R=40/5/50}C{C=1e-5})")
+    r = fit_circuit(start, DataSet(f, true.get_impedances(f)), method="least_squares", weight="boukamp", num_procs=1,
+                    constraint_expressions={"R_1": "R_0 * ratio"}, constraint_variables={"ratio": dict(value=4.0, min=1e-6, max=1e6)})
+    p = r.minimizer_result.params
+    return bool(abs(p["R_1"].value - p["R_0"].value * p["ratio"].value) > 1e-6 * p["R_1"].value)
